@@ -51,7 +51,16 @@ func (c *Ctx) rangeEngine(roots []*ssa.Function, byteTaint bool, intSize int) (*
 		// caller's input buffers over the points-to graph of engine E1
 		if ef, err := c.effects(); err == nil {
 			a := ef.A
-			tainted := a.StreamTainted(func(o *pta.Obj) bool { return o.Kind == pta.ExtInput || o.Kind == pta.ExtArg })
+			if strings.HasPrefix(c.Dump, "taint:") {
+				pta.TaintDebug = strings.TrimPrefix(c.Dump, "taint:")
+			}
+			// the adversary's data: the byte slices (and other arguments) of the encoding / decoding entry
+			// points, the frames a PixelData hands out and the FrameInfo — not the arguments of every other
+			// exported helper (mqc.NewMQDecoderWithContexts(data, prevContexts) is called by the library
+			// with values the library computed)
+			tainted := a.StreamTainted(func(o *pta.Obj) bool {
+				return o.Kind == pta.ExtInput || (o.Kind == pta.ExtArg && (ef.EntryArgs[o] || o == ef.PixSrc || o == ef.PixDst || o == ef.FrameInfo))
+			})
 			cfg.StreamSlice = func(fn *ssa.Function, v ssa.Value) bool {
 				for _, o := range a.ObjectsOf(v, pta.CtxRun) {
 					if tainted[o] {
